@@ -399,6 +399,8 @@ pub struct Part<'a> {
     pub engine: String,
     pub cases: u64,
     pub max_shrink_iters: u32,
+    /// upper bound on worker threads for this part (process-wide measurements need 1)
+    pub max_workers: Option<usize>,
     pub run: Box<dyn Fn(&RunCfg) -> EngineReport + 'a>,
     pub replay: Box<dyn Fn(&serde_json::Value) -> Result<Verdict, String> + 'a>,
 }
@@ -421,6 +423,7 @@ where
         engine: engine.to_string(),
         cases,
         max_shrink_iters: 2000,
+        max_workers: None,
         run: Box::new(move |cfg| {
             let m: &MW = &m1;
             let t: &F = &t1;
@@ -452,6 +455,7 @@ where
         engine: engine.to_string(),
         cases: n,
         max_shrink_iters: 0,
+        max_workers: None,
         run: Box::new(move |cfg| {
             let m: &MW = &m1;
             let t: &F = &t1;
